@@ -34,7 +34,10 @@ RULE = ("every table (tp,fp,fn,tn) of naturals with total <= 6 (quick) / <= 12 (
         "BasicContingencyManager built from a counts dict of DataArrays, all 34 public metric methods; plus random large tables "
         "(cells up to 2000, zero cells forced with p=0.3) and 1-3 dimensional count arrays whose four members are stored with "
         "different dimension and coordinate order; a case is one (table, method) pair, distinct by its content, non-trivial always "
-        "(zero-cell tables are the point); standalone POD/POFD on random binary arrays with NaN, weights and every dims spelling")
+        "(zero-cell tables are the point); standalone POD/POFD on random binary arrays with NaN, weights and every dims spelling; single tables "
+        "held as 0-d count arrays with float64 and with int64 counts (all tables with total <= 2 / <= 3, every single-cell table, the empty "
+        "table, random ones); tables produced by the public event route (BinaryContingencyManager / ThresholdEventOperator, then transform) on "
+        "constant, equal, all-missing and random 0/1 series, fully reduced (0-d) or with one dimension kept")
 ASSUMPTIONS = ["natural logarithm (SEDI) is evaluated by the host's math.log on the model's exact rational arguments",
                "binary64 rounding is not modelled: implementation floats are compared with the exact rational value at 1e-9 relative"]
 TRUSTED = ["host math.log for SEDI"]
@@ -52,6 +55,7 @@ SWAPS = [("probability_of_detection", "success_ratio"), ("success_ratio", "proba
          ("equitable_threat_score", "equitable_threat_score"), ("odds_ratio", "odds_ratio"),
          ("odds_ratio_skill_score", "odds_ratio_skill_score"), ("base_rate", "forecast_rate")]
 HSS_NAMES = ("heidke_skill_score", "cohens_kappa")
+NANF = float("nan")
 
 
 def model_ok(ctx):
@@ -65,11 +69,12 @@ KEY_ORDERS = [("tp_count", "tn_count", "fp_count", "fn_count", "total_count"),  
               ("fn_count", "total_count", "tp_count", "tn_count", "fp_count")]
 
 
-def manager(tp, fp, fn, tn, dims=("t",), order=0):
-    """the real BasicContingencyManager from a counts dict of DataArrays (1-D over the tables); the dict may list its keys in any order"""
+def manager(tp, fp, fn, tn, dims=("t",), order=0, dtype=float):
+    """the real BasicContingencyManager from a counts dict of DataArrays (1-D over the tables, or 0-d: ONE table, with dims=());
+    the dict may list its keys in any order; counts are stored as float (what transform() produces) or as integers"""
     from scores.categorical import BasicContingencyManager
-    c = {"tp_count": xr.DataArray(np.asarray(tp, dtype=float), dims=dims), "tn_count": xr.DataArray(np.asarray(tn, dtype=float), dims=dims),
-         "fp_count": xr.DataArray(np.asarray(fp, dtype=float), dims=dims), "fn_count": xr.DataArray(np.asarray(fn, dtype=float), dims=dims)}
+    c = {"tp_count": xr.DataArray(np.asarray(tp, dtype=dtype), dims=dims), "tn_count": xr.DataArray(np.asarray(tn, dtype=dtype), dims=dims),
+         "fp_count": xr.DataArray(np.asarray(fp, dtype=dtype), dims=dims), "fn_count": xr.DataArray(np.asarray(fn, dtype=dtype), dims=dims)}
     c["total_count"] = c["tp_count"] + c["tn_count"] + c["fp_count"] + c["fn_count"]
     return BasicContingencyManager({k: c[k] for k in KEY_ORDERS[order % len(KEY_ORDERS)]})
 
@@ -299,6 +304,97 @@ def multi_dim(ctx, use_model=True):
     ctx.count(f"multidim:ndim={len(dims)}")
 
 
+SINGLE_CELL = [(0, 0, 0, 49), (49, 0, 0, 0), (0, 0, 0, 48), (7, 0, 0, 0), (0, 0, 0, 0), (0, 6, 0, 0), (0, 0, 6, 0), (3, 0, 0, 4), (0, 3, 0, 5),
+               (5, 3, 0, 10), (5, 0, 2, 10), (28, 72, 23, 2680)]
+
+
+def scalar_tables(ctx, use_model=True):
+    """ONE table held as 0-d count arrays -- the fully reduced table, i.e. what transform() returns by default -- with float and
+    with integer counts: every method = documented formula (zero cells: the IEEE value, never an exception), and the single-table
+    manager agrees bitwise with a multi-table manager holding the same table"""
+    rng = ctx.rng
+    tables = all_tables(3 if ctx.tier == "thorough" or ctx.scale > 1 else 2) + SINGLE_CELL + [rand_table(rng, 60) for _ in range(ctx.n(6, 40))]
+    for dtype in ("float64", "int64"):
+        nd = manager(*[[t[k] for t in tables] for k in range(4)], dtype=dtype)
+        with np.errstate(all="ignore"):
+            nd_vals = {m: (None if isinstance(v, str) else flat(v)) for m, v in call_all(nd).items()}
+        for i, t in enumerate(tables):
+            if not ctx.time_left():
+                return
+            mgr = manager(*t, dims=(), order=rng.randrange(len(KEY_ORDERS)), dtype=dtype)
+            impl = {}
+            for m, v in call_all(mgr).items():
+                impl[m] = [v if isinstance(v, str) else float(v)]
+                case = {"table": {"tp": t[0], "fp": t[1], "fn": t[2], "tn": t[3]}, "method": m, "via": "0-d counts, " + dtype}
+                if not isinstance(v, str) and v.ndim != 0:
+                    ctx.violation("metric of a single (0-d) table is not 0-d", case, (), v.dims)
+                if not isinstance(v, str) and nd_vals[m] is not None and not same_float(impl[m][0], nd_vals[m][i]):
+                    ctx.violation(f"{m}: the single-table (0-d) manager and a multi-table manager disagree on the same table", case, nd_vals[m][i], impl[m][0])
+            check_tables(ctx, [t], impl, "scalar:" + dtype, sedi_budget=1 if i % 4 == 0 else 0, use_model=use_model)
+
+
+def event_route(ctx, use_model=True):
+    """tables produced by the public event route -- BinaryContingencyManager(fcst, obs).transform(...), directly or through
+    ThresholdEventOperator -- fully reduced (0-d counts) or with one dimension kept, on series that include the degenerate ones:
+    event never observed and never forecast, always both, nothing valid.  All 34 methods against the oracle on directly counted tables."""
+    from scores.categorical import BinaryContingencyManager, ThresholdEventOperator
+    rng = ctx.rng
+    sizes = gens.rand_sizes(rng, maxsize=4, maxdims=2)
+    pat = rng.choice(["zeros", "ones", "equal", "random", "random", "allnan", "fcst0", "obs0", "fcst1", "obs1"])
+    nan_p = 0.2 if rng.random() < 0.4 else 0.0
+    fcst = gens.rand_da(rng, sizes, values=[0.0, 1.0], nan_p=nan_p)
+    obs = gens.rand_da(rng, sizes, values=[0.0, 1.0], nan_p=nan_p)
+    if pat in ("zeros", "fcst0"):
+        fcst = fcst * 0
+    if pat in ("zeros", "obs0"):
+        obs = obs * 0
+    if pat in ("ones", "fcst1"):
+        fcst = fcst * 0 + 1
+    if pat in ("ones", "obs1"):
+        obs = obs * 0 + 1
+    if pat == "equal":
+        obs = fcst.copy()
+    if pat == "allnan":
+        fcst = fcst * NANF
+    keep = rng.choice(sorted(sizes)) if rng.random() < 0.35 else None
+    via = "ThresholdEventOperator" if rng.random() < 0.3 else "BinaryContingencyManager"
+    desc = {"fn": via + "(...).transform", "fcst": gens.da_repr(fcst), "obs": gens.da_repr(obs), "preserve_dims": keep, "pattern": pat}
+    if via == "ThresholdEventOperator":
+        st, mgr = core.call_impl(lambda: ThresholdEventOperator().make_contingency_manager(fcst, obs, event_threshold=0.5))
+    else:
+        st, mgr = core.call_impl(lambda: BinaryContingencyManager(fcst, obs))
+    if st == "ok":
+        st, mgr = core.call_impl(lambda: mgr.transform(preserve_dims=keep) if keep else mgr.transform())
+    ctx.count("event_route:" + pat + (":kept" if keep else ":0-d"))
+    if st != "ok":
+        ctx.violation("the event route raises on binary series", desc, "a table", mgr)
+        return
+    f, o = xr.broadcast(fcst, obs)
+    o = o.transpose(*f.dims)
+    tables = []
+    for lab in (sorted(int(x) for x in f[keep].values) if keep else [None]):
+        fv = np.asarray((f.sel({keep: lab}) if keep else f).values, float).ravel()
+        ov = np.asarray((o.sel({keep: lab}) if keep else o).values, float).ravel()
+        ok = ~np.isnan(fv) & ~np.isnan(ov)
+        tables.append((int((ok & (fv == 1) & (ov == 1)).sum()), int((ok & (fv == 1) & (ov == 0)).sum()),
+                       int((ok & (fv == 0) & (ov == 1)).sum()), int((ok & (fv == 0) & (ov == 0)).sum())))
+    impl = {}
+    with np.errstate(all="ignore"):
+        for m, v in call_all(mgr).items():
+            if isinstance(v, str):
+                impl[m] = [v] * len(tables)
+            elif set(v.dims) != ({keep} if keep else set()):
+                ctx.violation(f"{m} through the event route keeps the wrong dimensions", desc, [keep] if keep else [], list(v.dims))
+                return
+            else:
+                impl[m] = flat(v.sortby(keep) if keep else v)
+    check_tables(ctx, tables, impl, "event-route", sedi_budget=1, use_model=use_model)
+    for m in METHODS:      # make the failing input replayable from the series, not only from the table
+        if any(isinstance(x, str) for x in impl[m]):
+            ctx.violation(f"{m} raises on a table produced by the event route", desc, "IEEE value", impl[m][0])
+            break
+
+
 def expected_keep(all_dims, rd, pd):
     """dimensions a valid reduce_dims / preserve_dims request keeps (the documented rule, restated independently)"""
     if pd is not None:
@@ -439,6 +535,11 @@ def body(ctx, use_model):
         if not ctx.time_left():
             break
         multi_dim(ctx, use_model)
+    scalar_tables(ctx, use_model)
+    for _ in range(ctx.n(40, 400)):
+        if not ctx.time_left():
+            break
+        event_route(ctx, use_model)
     for i in range(ctx.n(150, 1500)):
         if not ctx.time_left():
             break
